@@ -14,7 +14,8 @@ ANCHORS = ["TrafficLightCycle.get_state_at_time_step", "TrafficLight.get_state_a
 REQUIRED = ["single-element", "t<offset", "t-many-periods", "adjacent-same-colour", "light-agrees", "retimed.swap-durations", "retimed.shift-duration",
             "retimed.reverse-in-place", "retimed.time_offset", "retimed.append", "retimed.replace-cycle-of-light", "light.lamps-RYG",
             "light.first-colour-only", "light.inactive-flag", "numpy-int-time.uint8", "numpy-int-time.uint64",
-            "numpy-int-time.int8", "numpy-int-definition.unsigned", "numpy-int-definition.signed"]
+            "numpy-int-time.int8", "numpy-int-definition.unsigned", "numpy-int-definition.signed",
+            "cycle-with-more-than-8-elements"]
 EXHAUSTIVE = {"quick": "cycles of 1..3 elements, durations 1..3, colours {RED,GREEN,YELLOW}, offsets 0..4, t in -10..40",
               "thorough": "cycles of 1..3 elements, durations 1..4, all 5 colours, offsets 0..4, t in -10..40 "
                           "(random part beyond is not exhaustive)"}
@@ -122,7 +123,9 @@ def run(ctx):
 
     nrand = ctx.pick(300, 40000)
     for i, rng in ctx.cases("random", nrand):
-        n = rng.randint(1, 8)
+        n = rng.randint(1, 8) if i % 4 else rng.choice([9, 10, 12, 16, 25])   # also long signal plans
+        if n > 8:
+            ctx.feature("cycle-with-more-than-8-elements")
         sd = tuple((rng.choice(list(S)), rng.choice([1, 1, 2, 3, rng.randint(1, 40), rng.randint(1, 500)]))
                    for _ in range(n))
         off = rng.choice([0, 1, rng.randint(0, 50), rng.randint(0, 10000)])
